@@ -102,7 +102,8 @@ def run_inprocess(argv, stdin=b'', force_env=None):
         sys.stdout = out
         sys.stderr = err
         try:
-            m.main()
+            with api.time_limit():
+                m.main()
         except SystemExit as e:
             status = e.code if isinstance(e.code, int) else (0 if e.code is None else 1)
         except BaseException as e:
